@@ -354,8 +354,9 @@ func newSim(env *simcore.Env, cfg simcore.Op) simcore.Sim {
 	}
 	s.evilTopo = isEvil(cfg.Str("hs"))
 	s.privM = keyFrom("M", cfg.Int("keyM"))
+	ct, ks := map[[32]byte]int{}, map[[16]byte]int{}
 	for i := 0; i < 2; i++ {
-		s.st[i] = &stream{ctSeen: map[[32]byte]int{}, ksSeen: map[[16]byte]int{}}
+		s.st[i] = &stream{ctSeen: ct, ksSeen: ks} // shared: no two frames of a session, in either direction, may share key and nonce
 	}
 	for i := 0; i < 2; i++ {
 		sd := &side{priv: keyFrom([]string{"A", "B"}[i], cfg.Int([]string{"keyA", "keyB"}[i]))}
@@ -463,7 +464,7 @@ func (s *sim) nonceWatch(st *stream, plain *[]byte, chunks []int, idx int, u []b
 	}
 	h := sha256.Sum256(u)
 	if prev, ok := st.ctSeen[h]; ok {
-		s.env.Report("C16", "nonce-reuse", "sealed frames %d and %d of one direction are byte-identical on the wire (same key, same nonce, same plaintext)", prev, idx)
+		s.env.Report("C16", "nonce-reuse", "sealed frames %d and %d of this session are byte-identical on the wire (same key, same nonce, same plaintext)", prev, idx)
 	}
 	st.ctSeen[h] = idx
 	di := idx - 2
@@ -485,7 +486,7 @@ func (s *sim) nonceWatch(st *stream, plain *[]byte, chunks []int, idx int, u []b
 		ks[i] = u[i] ^ hdr[i]
 	}
 	if prev, ok := st.ksSeen[ks]; ok {
-		s.env.Report("C16", "nonce-reuse", "data frames %d and %d of one direction were sealed with the same key stream (nonce used twice)", prev, idx)
+		s.env.Report("C16", "nonce-reuse", "data frames %d and %d of this session (either direction) were sealed with the same key stream (key and nonce used twice)", prev, idx)
 	}
 	st.ksSeen[ks] = idx
 }
